@@ -34,6 +34,7 @@ type vfProfile struct {
 	AofFailPct int  // share of steps at which the append file is broken / healed (C11)
 	AckRelock  bool // allow the require-ack flag on re-entrant re-locks of an established hold
 	AckData    bool // allow value operations on require-ack requests
+	LongTable  bool // scripts with waiters / holds that sit in the long-wait tables while others of the same second leave
 	NoPipeline bool // never generate PIPELINE value operations
 	NoRelock   bool // never address a LockId that currently holds the key (no re-entrant re-locks, no updates)
 }
